@@ -8,13 +8,19 @@
 //                     userraw : ulock_t itself as the Lock of condition_variable_any
 //                     spin    : std::unique_lock<pika::concurrency::detail::spinlock>
 //   flag=0|1          initial value of the shared variable the predicate reads
+//   script=i,j,...    directed schedule prefix (thread ids; an id that is not schedulable is skipped)
+//   mode=os|pika      logical threads are plain OS threads (default) or pika tasks (own task ids:
+//                     the other branch of stop_state::remove_callback's thread comparison)
 // Thread ops: lock ; unlock ; set v ; n1 ; nall ; wait ; waitp ; twait ; twaitp
-//   swaitp ; stwaitp ; stop   (condition_variable_any only: stop-token waits and request_stop on one
-//   shared stop_source; exercised by hand / by notes/C07.md, not yet part of the Lean model)
+//   swaitp ; stwaitp ; stop
+//                     (condition_variable_any only: wait(lock, stop_token, pred), wait_for(lock, stop_token,
+//                     d, pred) and request_stop on one shared stop_source; part of the Lean model since
+//                     follow-up C07s)
 //
 // Events logged by the harness itself (besides the hook events compiled into pika):
 //   inv.<op> (point)   ul.lock (point) / ul.spin (point, spinning) / ul.acq / ul.rel
 //   set v   pred v (point)   ret r
+#define VERIF_WITH_PIKA_TASKS
 #include "../baton.hpp"
 #include "../e1_main.hpp"
 
@@ -162,6 +168,7 @@ static void run_with(case_t const& c, controller* ctl)
     std::vector<std::function<void()>> bodies;
     for (int i = 0; i < k; ++i)
         bodies.push_back([=, &c] { body<CV, M, L>(c, i, cv, m, flag, false, ssrc); });
+    if (c.gets("mode", "os") == "pika") run_pika_tasks(*ctl, bodies);
     run_os_threads(*ctl, bodies);
 }
 
@@ -184,6 +191,19 @@ static void run_one(case_t const& c)
     int k = int(c.threads.size());
     auto* ctl = new controller(k, std::uint64_t(c.geti("seed", 1)), int(c.geti("strat", 0)));
     ctl->max_steps = std::size_t(c.geti("maxsteps", 20000));
+    {
+        // script=<comma separated thread ids>: directed schedule prefix (PRNG choices afterwards)
+        std::string sc = c.gets("script", "");
+        std::size_t pos = 0;
+        while (pos < sc.size())
+        {
+            std::size_t q = sc.find(',', pos);
+            if (q == std::string::npos) q = sc.size();
+            std::string tok = sc.substr(pos, q - pos);
+            if (!tok.empty()) ctl->script.push_back(std::atoi(tok.c_str()));
+            pos = q + 1;
+        }
+    }
     std::string cvk = c.gets("cv", "plain");
     std::string lk = c.gets("lock", "user");
     using spin = pika::concurrency::detail::spinlock;
